@@ -11,7 +11,7 @@ ItemS == SchemaF(<< <<"p", With(IntF, [hasmin |-> TRUE, min |-> 1, hasmax |-> TR
 CtS   == [ctype |-> TRUE] @@ SchemaF(<< <<"u", With(IntF, [default |-> IntV(0)])>>,
                                         <<"m", With(DictF(StringF, IntF), [default |-> DictV(<<>>)])>> >>)
 ItemC == [ctype |-> TRUE] @@ SchemaF(<< <<"w", With(IntF, [hasmin |-> TRUE, min |-> 0, default |-> IntV(1)])>> >>)
-ItemDefault == DefaultCfg(Bind(ItemS, "none"), <<>>).cfg
+ItemDefault == DefaultCfg(Bind(ItemS, PNone), <<>>).cfg
 DeepS == SchemaF(<< <<"z", With(BoolF, [default |-> BoolV(FALSE)])>> >>)
 SubS  == [validators |-> <<"x_not_3">>] @@ SchemaF(<< <<"x", With(IntF, [default |-> IntV(1), required |-> TRUE])>>,
                     <<"y", With(StringF, [choices |-> << <<"u">>, <<"v">> >>])>>,
@@ -41,7 +41,7 @@ MCKeyChars == [k \in MCKeyNames |->
       [] k = "p" -> <<"p">> [] k = "q" -> <<"q">> [] k = "zz" -> <<"z","z">>]
 MCEnviron == [n \in {} |-> <<>>]
 
-SubDefault == DefaultCfg(Bind(SubS, "none"), <<"sub">>).cfg
+SubDefault == DefaultCfg(Bind(SubS, PNone), <<"sub">>).cfg
 MCSetCands ==
     [pk \in {<< <<>>, "a">>, << <<>>, "s">>, << <<>>, "l">>, << <<>>, "d">>, << <<>>, "sub">>, << <<>>, "items">>,
              << <<>>, "zz">>, << <<>>, "ct">>, << <<"ct">>, "u">>, << <<"ct">>, "m">>, << <<"sub">>, "x">>, << <<"sub">>, "y">>, << <<"sub">>, "deep">>, << <<"sub", "deep">>, "z">>} |->
